@@ -1,9 +1,9 @@
 #!/bin/bash
 # C16: a `]` cannot be put into a glob character class: `[\]x]` is cut at the escaped bracket
 # (fclones/src/pattern.rs glob_to_regex: many0(none_of("]"))), `[]x]` is rejected.
-CHECKOUT=${1:-/tmp/hunt/n4}
-F=/tmp/hunt/n4/target/debug/fclones
-T=$(mktemp -d /tmp/hunt/n4-out/r4XXXXXX) || exit 2
+CHECKOUT=${1:-/repo}
+F=${1:-/repo}/target/debug/fclones
+T=$(mktemp -d /tmp/r4XXXXXX) || exit 2
 trap 'rm -rf "$T"' EXIT
 for n in 'a]' 'ax' 'a\x]' 'a\]'; do echo same > "$T/$n"; done
 got=$($F group "$T" --rf-over 0 -f fdupes --name 'a[\]x]' 2>/dev/null | grep . | sed "s|$T/||" | sort | tr '\n' ' ')
